@@ -55,7 +55,7 @@ func (s *vsel) UnmarshalJSON(b []byte) error {
 
 type vagg struct {
 	Sum4, ProdN, Nf, Min4, Max4, Count, Isum, Iprod, Imin, Imax int
-	Numeric                                                      bool
+	Numeric                                                     bool
 }
 
 type listRec struct {
